@@ -173,3 +173,116 @@ Qed.
 Lemma nf_escaped {A B} k (normal : parser A) ctrl (escapable : parser B) : nf k normal -> sfx normal -> nf k escapable -> sfx escapable ->
   nf k (escaped normal ctrl escapable).
 Proof. intros Hn Sn He Se i Hi. unfold escaped. now apply (nf_escaped_aux k normal ctrl escapable Hn Sn He Se). Qed.
+
+(* ---- more fuel never changes an answer ----
+   [le_p p q]: q agrees with p wherever p does not run out of fuel.  Every combinator is monotone
+   for this order, so a grammar at fuel n+1 refines the same grammar at fuel n: fuel only decides
+   whether there is an answer, never which. *)
+Definition le_p {A} (p q : parser A) := forall i, p i <> Abort AFuel -> q i = p i.
+
+Lemma le_refl {A} (p : parser A) : le_p p p. Proof. intros i _. reflexivity. Qed.
+Lemma le_trans {A} (p q r : parser A) : le_p p q -> le_p q r -> le_p p r.
+Proof. intros H1 H2 i Hi. rewrite (H2 i); [now apply H1|]. now rewrite (H1 i Hi). Qed.
+Lemma le_bot {A} (q : parser A) : le_p (fun _ => Abort AFuel) q. Proof. intros i H. congruence. Qed.
+Lemma le_eta {A} (p q : parser A) : le_p p q -> le_p (fun j => p j) (fun j => q j). Proof. intros H i. apply H. Qed.
+
+Lemma le_bind {A B} (p q : parser A) (f g : A -> parser B) : le_p p q -> (forall a, le_p (f a) (g a)) -> le_p (bind p f) (bind q g).
+Proof.
+  intros Hp Hf i Hi. unfold bind in *. destruct (p i) as [a r|e|k] eqn:E.
+  - rewrite (Hp i) by congruence. rewrite E. now apply Hf.
+  - rewrite (Hp i) by congruence. now rewrite E.
+  - rewrite (Hp i) by congruence. now rewrite E.
+Qed.
+Lemma le_pmap {A B} (g : A -> B) p q : le_p p q -> le_p (pmap g p) (pmap g q).
+Proof. intros H i Hi. unfold pmap in *. rewrite (H i); [reflexivity|]. intros X. rewrite X in Hi. congruence. Qed.
+Lemma le_value {A B} (v : B) (p q : parser A) : le_p p q -> le_p (value v p) (value v q). Proof. apply le_pmap. Qed.
+Lemma le_unitp {A} (p q : parser A) : le_p p q -> le_p (unitp p) (unitp q). Proof. apply le_pmap. Qed.
+Lemma le_pair {A B} (p p' : parser A) (q q' : parser B) : le_p p p' -> le_p q q' -> le_p (pair p q) (pair p' q').
+Proof. intros. unfold pair. apply le_bind; [assumption|]. intros a. now apply le_pmap. Qed.
+Lemma le_preceded {A B} (p p' : parser A) (q q' : parser B) : le_p p p' -> le_p q q' -> le_p (preceded p q) (preceded p' q').
+Proof. intros. unfold preceded. now apply le_bind. Qed.
+Lemma le_terminated {A B} (p p' : parser A) (q q' : parser B) : le_p p p' -> le_p q q' -> le_p (terminated p q) (terminated p' q').
+Proof. intros. unfold terminated. apply le_bind; [assumption|]. intros a. now apply le_pmap. Qed.
+Lemma le_delimited {A B C} (p p' : parser A) (q q' : parser B) (r r' : parser C) :
+  le_p p p' -> le_p q q' -> le_p r r' -> le_p (delimited p q r) (delimited p' q' r').
+Proof. intros. unfold delimited. apply le_preceded; [assumption|]. now apply le_terminated. Qed.
+
+Lemma le_alt' {A} (ps qs : list (parser A)) : Forall2 le_p ps qs -> forall last, le_p (alt' ps last) (alt' qs last).
+Proof.
+  induction 1 as [|p q ps qs Hpq _ IH]; intros last i Hi; cbn [alt'] in *; [reflexivity|].
+  destruct (p i) as [a r|e|k] eqn:E.
+  - rewrite (Hpq i) by congruence. now rewrite E.
+  - rewrite (Hpq i) by congruence. rewrite E. now apply IH.
+  - rewrite (Hpq i) by congruence. now rewrite E.
+Qed.
+Lemma le_alt {A} (ps qs : list (parser A)) : Forall2 le_p ps qs -> le_p (alt ps) (alt qs).
+Proof. intros. now apply le_alt'. Qed.
+Lemma le_opt {A} (p q : parser A) : le_p p q -> le_p (opt p) (opt q).
+Proof. intros H i Hi. unfold opt in *. rewrite (H i); [reflexivity|]. intros X. rewrite X in Hi. congruence. Qed.
+Lemma le_context {A} m (p q : parser A) : le_p p q -> le_p (context m p) (context m q).
+Proof. intros H i Hi. unfold context in *. rewrite (H i); [reflexivity|]. intros X. rewrite X in Hi. congruence. Qed.
+Lemma le_recognize {A} (p q : parser A) : le_p p q -> le_p (recognize p) (recognize q).
+Proof. intros H i Hi. unfold recognize in *. rewrite (H i); [reflexivity|]. intros X. rewrite X in Hi. congruence. Qed.
+Lemma le_map_res {A B} (p q : parser A) (f : A -> option B) : le_p p q -> le_p (map_res p f) (map_res q f).
+Proof. intros H i Hi. unfold map_res in *. rewrite (H i); [reflexivity|]. intros X. rewrite X in Hi. congruence. Qed.
+Lemma le_pnot {A} (p q : parser A) : le_p p q -> le_p (pnot p) (pnot q).
+Proof. intros H i Hi. unfold pnot in *. rewrite (H i); [reflexivity|]. intros X. rewrite X in Hi. congruence. Qed.
+
+Lemma le_many0_aux {A} (p q : parser A) : le_p p q -> forall n i, many0_aux p n i <> Abort AFuel -> many0_aux q n i = many0_aux p n i.
+Proof.
+  intros H. induction n as [|n IH]; intros i Hi; cbn [many0_aux] in *; destruct (p i) as [a r|e|k] eqn:E;
+    try (rewrite (H i) by congruence; rewrite E; reflexivity).
+  rewrite (H i) by congruence. rewrite E. destruct (Nat.eqb (List.length r) (List.length i)); [reflexivity|].
+  rewrite IH; [reflexivity|]. intros X. rewrite X in Hi. congruence.
+Qed.
+Lemma le_many0 {A} (p q : parser A) : le_p p q -> le_p (many0 p) (many0 q).
+Proof. intros H i. unfold many0. now apply le_many0_aux. Qed.
+Lemma le_fold_many0_unit {A} (p q : parser A) : le_p p q -> le_p (fold_many0_unit p) (fold_many0_unit q).
+Proof. intros. now apply le_unitp, le_many0. Qed.
+
+Lemma le_many_till_aux {A B} (f f' : parser A) (g g' : parser B) : le_p f f' -> le_p g g' -> forall n i,
+  many_till_aux f g n i <> Abort AFuel -> many_till_aux f' g' n i = many_till_aux f g n i.
+Proof.
+  intros Hf Hg. induction n as [|n IH]; intros i Hi; cbn [many_till_aux] in *; destruct (g i) as [x rg|eg|kg] eqn:Eg;
+    try (rewrite (Hg i) by congruence; rewrite Eg; reflexivity);
+    rewrite (Hg i) by congruence; rewrite Eg; destruct (f i) as [a r|e|k] eqn:E;
+    try (rewrite (Hf i) by congruence; rewrite E; reflexivity).
+  rewrite (Hf i) by congruence. rewrite E. destruct (Nat.eqb (List.length r) (List.length i)); [reflexivity|].
+  rewrite IH; [reflexivity|]. intros X. rewrite X in Hi. congruence.
+Qed.
+Lemma le_many_till {A B} (f f' : parser A) (g g' : parser B) : le_p f f' -> le_p g g' -> le_p (many_till f g) (many_till f' g').
+Proof. intros Hf Hg i. unfold many_till. now apply le_many_till_aux. Qed.
+
+Lemma le_sep_rest {A S} (s s' : parser S) (f f' : parser A) : le_p s s' -> le_p f f' -> forall n i,
+  sep_rest s f n i <> Abort AFuel -> sep_rest s' f' n i = sep_rest s f n i.
+Proof.
+  intros Hs Hf. induction n as [|n IH]; intros i Hi; cbn [sep_rest] in *; destruct (s i) as [x i1|es|ks] eqn:Es;
+    try (rewrite (Hs i) by congruence; rewrite Es; reflexivity);
+    rewrite (Hs i) by congruence; rewrite Es; destruct (f i1) as [a i2|e|k] eqn:E;
+    try (rewrite (Hf i1) by congruence; rewrite E; reflexivity).
+  rewrite (Hf i1) by congruence. rewrite E. destruct (Nat.eqb (List.length i2) (List.length i)); [reflexivity|].
+  rewrite IH; [reflexivity|]. intros X. rewrite X in Hi. congruence.
+Qed.
+Lemma le_separated_list0 {A S} (s s' : parser S) (f f' : parser A) : le_p s s' -> le_p f f' -> le_p (separated_list0 s f) (separated_list0 s' f').
+Proof.
+  intros Hs Hf i Hi. unfold separated_list0 in *. destruct (f i) as [a r|e|k] eqn:E;
+    try (rewrite (Hf i) by congruence; rewrite E; reflexivity).
+  rewrite (Hf i) by congruence. rewrite E. rewrite (le_sep_rest s s' f f' Hs Hf); [reflexivity|].
+  intros X. rewrite X in Hi. congruence.
+Qed.
+Lemma le_separated_list1 {A S} (s s' : parser S) (f f' : parser A) : le_p s s' -> le_p f f' -> le_p (separated_list1 s f) (separated_list1 s' f').
+Proof.
+  intros Hs Hf i Hi. unfold separated_list1 in *. destruct (f i) as [a r|e|k] eqn:E;
+    try (rewrite (Hf i) by congruence; rewrite E; reflexivity).
+  rewrite (Hf i) by congruence. rewrite E. rewrite (le_sep_rest s s' f f' Hs Hf); [reflexivity|].
+  intros X. rewrite X in Hi. congruence.
+Qed.
+
+(* structural search *)
+Ltac le_step :=
+  first [ assumption | apply le_refl | (apply le_eta; assumption)
+        | apply le_pmap | apply le_value | apply le_unitp | apply le_opt | apply le_context | apply le_recognize | apply le_map_res | apply le_pnot
+        | apply le_many0 | apply le_fold_many0_unit | apply le_many_till | apply le_separated_list0 | apply le_separated_list1
+        | apply le_delimited | apply le_pair | apply le_preceded | apply le_terminated
+        | (apply le_alt; repeat (apply Forall2_cons || apply Forall2_nil)) ].
+Ltac le_auto := repeat le_step.
